@@ -5,7 +5,8 @@ From VV Require Import Model.Base Model.Pattern Model.CodonTable Model.Transcrip
 Definition as_codon (c : cds_seq) : result dna :=
   if zlen (c_ext c) =? 3 then Ok (c_ext c) else Err ValueError.
 
-(* one iteration of the loop over select_ppes_with_offset: (ppe_ref_start, ppe_start) *)
+(* one iteration of the loop over select_ppes_with_offset: (ppe_ref_start, ppe_start).  Since fix 746514f the caller hands the background
+   sequence and the lifted transcript as t_ref / q_ref and both codons are read at ppe_start (ppe_ref_start := ppe_start) *)
 Definition ppe_mut_type (tb : table) (t_ref t_alt : transcript) (q_ref q_alt : seq) (ppe_ref_start ppe_start : Z) : result mut_type :=
   do ca <- get_codon_at t_alt q_alt ppe_start;
   match ca with None => Err AssertionError | Some ca =>
